@@ -78,7 +78,7 @@ StrShapes(kind, t) ==
     [] kind = "type" -> {<<"type", Str("Note")>>}
     [] kind = "iri" -> {<<"iri", Str(Base \o "rel/" \o t)>>}
     [] kind = "lang" -> {<<"lang", Str("en")>>}
-    [] OTHER -> {<<"str", Str("miles")>>}
+    [] OTHER -> {<<"str", Str("miles")>>, <<"str-quoted", Str("5 \"nautical\" miles \\ C:\\x")>>}     \* quotes and backslashes in a plain string
 SourceShapes == { <<"plain", [k |-> "source", p |-> [content |-> Nlv(<<LR(NilTag, "# md")>>), mediaType |-> Str("text/markdown")]]>>,
                   <<"content-only", [k |-> "source", p |-> [content |-> Nlv(<<LR(NilTag, "src")>>)]]>>,
                   <<"multi", [k |-> "source", p |-> [content |-> Nlv(<<LR("en", "src"), LR("fr", "srcfr")>>), mediaType |-> Str("text/plain")]]>>,
